@@ -158,7 +158,7 @@ def subchecks(tier):
             prop,
             quick=3000,
             thorough=400000,
-            floors={"noise": 0.3, "noise_exceeds_pilot_power": 0.1, "reaches_full": 0.1, "cont": 0.164, "step": 0.172},
+            floors={"noise": 0.252, "noise_exceeds_pilot_power": 0.1, "reaches_full": 0.1, "cont": 0.164, "step": 0.172},
         )
     ]
     try:
